@@ -88,3 +88,5 @@ def run(rep, tier):
         rep.discharged += 3 - len({r for r, _ in found if r in ('DRIVER-exits', 'FINALIZE-exits', 'TABLE-index')})
     rep.count('finalize/driver obligations', n)
     rep.floor('runtime copies analysed', rep.instances.get('runtime copies analysed', 0), 3)
+    from .. import controls
+    controls.route_controls(rep)
